@@ -72,7 +72,7 @@ class Monitored:
 
 async def monitored_random_trace(rng, *, nsess, nsteps, boxes=(1,), idle=True,
                                  readonly_sessions=(), weights=None, checkpoint_every=6,
-                                 learn=True, flipflop=0.0):
+                                 learn=True, flipflop=0.0, group=0.0):
     mon = Monitored(checkpoint_every)
     sessions = list(range(1, nsess + 1))
     run = await StoreRun().start(sessions)
@@ -80,7 +80,8 @@ async def monitored_random_trace(rng, *, nsess, nsteps, boxes=(1,), idle=True,
     trace.setup = run.setup_labels()
     from .store_gen import TraceGen
     gen = TraceGen(rng, run, sessions, boxes=boxes, idle=idle,
-                   readonly_sessions=readonly_sessions, weights=weights, flipflop=flipflop)
+                   readonly_sessions=readonly_sessions, weights=weights, flipflop=flipflop,
+                   group=group)
     hooks = (mon.hook,)
     for s in sessions:
         box = rng.choice(list(boxes))
@@ -89,7 +90,10 @@ async def monitored_random_trace(rng, *, nsess, nsteps, boxes=(1,), idle=True,
             await exec_label(run, trace, ('cmd', s, ('fetch', [(1, '*')], False, True, False)), hooks)
     for i in range(nsteps):
         await exec_label(run, trace, gen.next_label(), hooks)
-        await mon.checkpoint(run, trace, i)
+        if not gen.queue:      # never synchronize everybody in the middle of an episode
+            await mon.checkpoint(run, trace, i)
+    while gen.queue:
+        await exec_label(run, trace, gen.queue.pop(0), hooks)
     for s in sorted(run.idle):
         await exec_label(run, trace, ('done', s), hooks)
     await mon.checkpoint(run, trace, 0, force=True)
@@ -147,6 +151,14 @@ ALPHABETS = {
         ('expunge', None),
         ('fetch', [(1, '*')], False, False, False),
         ('append', 1, [([5], 7)], None),                 # APPEND INBOX
+    ],
+    # one EXPUNGE removing two messages (one log record with two uids), and a session with a
+    # stale view that re-addresses only one of them
+    'group-reexpunge': [
+        ('store', [(1, 2)], False, 'add', [2], False),   # STORE 1:2 +FLAGS (\\Deleted)
+        ('expunge', None),                               # EXPUNGE
+        ('expunge', [101]),                              # UID EXPUNGE 101
+        ('store', [102], True, 'add', [5], False),       # UID STORE 102 +FLAGS (\\Seen)
     ],
     'uid-and-silent': [
         ('store', ['*'], False, 'add', [2], True),       # STORE * +FLAGS.SILENT (\Deleted)
